@@ -42,4 +42,14 @@ SubLeaky(a, b) == IF a < b THEN <<<<"br", 1>>, <<"addback">>>> ELSE <<<<"br", 0>
 \* ---- mechanism 5: conditional negate / sqrt sign fix-up ------------------------------------------
 CondNegCT(c) == <<<<"select">>>>
 CondNegLeaky(c) == IF c THEN <<<<"br", 1>>, <<"neg">>>> ELSE <<<<"br", 0>>>>
+
+\* ---- mechanism 6: sqrt_ratio_i evaluates every case ------------------------------------------------
+\* v = 0, u/v square, u/v non-square: the exponentiation, the three comparisons and both conditional fix-ups always run
+SqrtRatioCT(u, v) == <<<<"pow">>, <<"cmp">>, <<"cmp">>, <<"cmp">>, <<"select">>, <<"select">>>>
+SqrtRatioLeaky(u, v) == IF v = 0 THEN <<<<"br", 1>>>> ELSE <<<<"br", 0>>>> \o SqrtRatioCT(u, v)     \* early return on v = 0
+
+\* ---- mechanism 7: batch inversion skips nothing ------------------------------------------------------
+\* (FieldElement::batch_invert handles zero inputs by conditional selection; Scalar::batch_invert documents non-zero inputs)
+BatchInvCT(xs) == [i \in 1..Len(xs) |-> <<"mul">>] \o <<<<"inv">>>> \o [i \in 1..Len(xs) |-> <<"mul">>]
+BatchInvLeaky(xs) == [i \in 1..Len(xs) |-> IF xs[i] = 0 THEN <<"br", 1>> ELSE <<"mul">>] \o <<<<"inv">>>>
 =============================================================================
